@@ -4,6 +4,7 @@ import (
 	"fmt"
 	"go/token"
 	"go/types"
+	"regexp"
 	"sort"
 	"strings"
 
@@ -359,6 +360,10 @@ func orderSensitive(r *core.Run, f *ssa.Function, loop *cfgx.Loop, next *ssa.Nex
 			}
 		}
 	}
+	isRangeKey := func(v ssa.Value) bool {
+		ex, ok := v.(*ssa.Extract)
+		return ok && ex.Tuple == next && ex.Index == 1
+	}
 	nextT := res.Of(next).String()
 	isDerived := func(v ssa.Value) bool {
 		return derived[v] || strings.Contains(res.Of(v).String(), nextT)
@@ -420,15 +425,15 @@ func orderSensitive(r *core.Run, f *ssa.Function, loop *cfgx.Loop, next *ssa.Nex
 						if m == "Get" || m == "Has" {
 							continue
 						}
-						if (m == "Set" || m == "Delete") && len(cc.Args) > 1 && isDerived(cc.Args[1]) {
-							continue // per-key write keyed by the range key
+						if (m == "Set" || m == "Delete") && len(cc.Args) > 1 && derivesFromKey(r, f, cc.Args[1], isRangeKey, 0) {
+							continue // per-key write keyed by an injective encoding of the range key
 						}
 						return fmt.Sprintf("store %s at %s with a key that does not derive from the range key", m, p.Pos(x.Pos()))
 					}
 					return fmt.Sprintf("call to %s at %s (effects unknown)", name, p.Pos(x.Pos()))
 				}
 				for _, c := range callees {
-					if why := calleeOrderSensitive(r, c); why != "" {
+					if why := calleeOrderSensitive(r, c, x, isRangeKey, f); why != "" {
 						return fmt.Sprintf("call to %s at %s: %s", name, p.Pos(x.Pos()), why)
 					}
 				}
@@ -475,22 +480,244 @@ func hasWrites(r *core.Run, callees []*ssa.Function) bool {
 	return false
 }
 
-// calleeOrderSensitive: a callee may be invoked per map key only if all it
-// does is per-key store access: no events, no bank, no iteration-dependent
-// counters (constant-key writes), no iteration.
-func calleeOrderSensitive(r *core.Run, c *ssa.Function) string {
-	for _, e := range r.Eff.Reach(c) {
+// ---- injectivity of store keys in the range key ---------------------------------------------
+//
+// Iterations of a map range commute when the store keys one iteration touches are disjoint from those of
+// every other iteration. That is guaranteed when each touched key is an injective encoding of the range key
+// itself. A key computed from loaded data (e.g. a height read from a record) can coincide for two range keys:
+// the iterations then read-modify-write one record in the map's random order.
+
+// pureEncoder: a module function without effects returning bytes/string (NodeKey, GetShardIDBytes, KeyPrefix...).
+func pureEncoder(r *core.Run, f *ssa.Function) bool {
+	if f == nil || len(f.Blocks) == 0 || len(r.Eff.Reach(f)) > 0 {
+		return false
+	}
+	res := f.Signature.Results()
+	if res.Len() != 1 {
+		return false
+	}
+	switch t := res.At(0).Type().Underlying().(type) {
+	case *types.Slice:
+		b, ok := t.Elem().Underlying().(*types.Basic)
+		return ok && b.Kind() == types.Byte
+	case *types.Basic:
+		return t.Kind() == types.String
+	}
+	return false
+}
+
+// keyFieldLemma: for v = getter(k)#0, v.<field> == k — because the getter reads Enc(k) from a prefix that is
+// only ever written under Enc(record.<field>).
+func keyFieldLemma(r *core.Run, getter *ssa.Function, field string) (paramIdx int, ok bool) {
+	var get *eff.Effect
+	for _, e := range r.Eff.Own[getter] {
+		if e.Kind == "store.get" {
+			if get != nil {
+				return 0, false
+			}
+			get = e
+		} else if strings.HasPrefix(e.Kind, "store.") {
+			return 0, false
+		}
+	}
+	if get == nil || get.KeyVal == nil {
+		return 0, false
+	}
+	kc, isCall := get.KeyVal.(*ssa.Call)
+	if !isCall || kc.Call.StaticCallee() == nil || !pureEncoder(r, kc.Call.StaticCallee()) || len(kc.Call.Args) != 1 {
+		return 0, false
+	}
+	par, isPar := kc.Call.Args[0].(*ssa.Parameter)
+	if !isPar {
+		return 0, false
+	}
+	idx := -1
+	for i, p := range getter.Params {
+		if p == par {
+			idx = i
+		}
+	}
+	enc := kc.Call.StaticCallee()
+	// every writer of that prefix uses Enc(record.field)
+	nw := 0
+	for _, f := range r.P.Funcs {
+		for _, e := range r.Eff.Own[f] {
+			if e.Kind != "store.set" || eff.StoreOwner(e) != eff.StoreOwner(get) || e.Prefix != get.Prefix {
+				continue
+			}
+			nw++
+			wc, ok := e.KeyVal.(*ssa.Call)
+			if !ok || wc.Call.StaticCallee() != enc || len(wc.Call.Args) != 1 {
+				return 0, false
+			}
+			t := r.Resolver(f).Of(wc.Call.Args[0]).String()
+			if !regexp.MustCompile(`^~?#[0-9]+\.` + regexp.QuoteMeta(field) + `$`).MatchString(t) {
+				return 0, false
+			}
+		}
+	}
+	return idx, nw > 0 && idx >= 0
+}
+
+// derivesFromKey: v is the range key itself, an injective encoding of it, or a key field of the record
+// fetched under it (key-field lemma).
+func derivesFromKey(r *core.Run, f *ssa.Function, v ssa.Value, isKey func(ssa.Value) bool, depth int) bool {
+	if depth > 6 {
+		return false
+	}
+	if isKey(v) {
+		return true
+	}
+	switch x := v.(type) {
+	case *ssa.Convert:
+		return derivesFromKey(r, f, x.X, isKey, depth+1)
+	case *ssa.ChangeType:
+		return derivesFromKey(r, f, x.X, isKey, depth+1)
+	case *ssa.MakeInterface:
+		return derivesFromKey(r, f, x.X, isKey, depth+1)
+	case *ssa.Call:
+		if sc := x.Call.StaticCallee(); sc != nil && pureEncoder(r, sc) && len(x.Call.Args) >= 1 {
+			n := 0
+			for _, a := range x.Call.Args {
+				if _, isC := a.(*ssa.Const); isC {
+					continue
+				}
+				if !derivesFromKey(r, f, a, isKey, depth+1) {
+					return false
+				}
+				n++
+			}
+			return n > 0
+		}
+	case *ssa.UnOp:
+		// load of record.field where record = getter(key)#0
+		if fa, ok := x.X.(*ssa.FieldAddr); ok && x.Op == token.MUL {
+			if al, ok := fa.X.(*ssa.Alloc); ok {
+				var src ssa.Value
+				n := 0
+				for _, ref := range *al.Referrers() {
+					if st, ok := ref.(*ssa.Store); ok && st.Addr == al {
+						src = st.Val
+						n++
+					}
+				}
+				if n == 1 {
+					if ex, ok := src.(*ssa.Extract); ok && ex.Index == 0 {
+						if c, ok := ex.Tuple.(*ssa.Call); ok {
+							_, callees := term.CalleeName(r.P, &c.Call)
+							if len(callees) == 1 {
+								if pi, ok := keyFieldLemma(r, callees[0], fieldNameT(fa.X.Type(), fa.Field)); ok {
+									off := 0
+									if c.Call.IsInvoke() {
+										off = 1
+									}
+									if pi-off >= 0 && pi-off < len(c.Call.Args) {
+										return derivesFromKey(r, f, c.Call.Args[pi-off], isKey, depth+1)
+									}
+								}
+							}
+						}
+					}
+				}
+			}
+		}
+	}
+	return false
+}
+
+// effKeyParam: which parameter of f the key of store effect e (reachable from f) injectively derives from.
+func effKeyParam(r *core.Run, f *ssa.Function, e *eff.Effect, depth int) (int, bool) {
+	if depth > 4 {
+		return 0, false
+	}
+	if e.Fn == f {
+		if e.KeyVal == nil {
+			return 0, false
+		}
+		for i, par := range f.Params {
+			p := par
+			if derivesFromKey(r, f, e.KeyVal, func(v ssa.Value) bool { return v == p }, 0) {
+				return i, true
+			}
+		}
+		return 0, false
+	}
+	res, found := -1, false
+	for _, s := range r.P.CG.Sites[f] {
+		for _, g := range s.Callees {
+			if !r.P.CG.Reach(g)[e.Fn] {
+				continue
+			}
+			j, ok := effKeyParam(r, g, e, depth+1)
+			if !ok {
+				return 0, false
+			}
+			off := 0
+			if s.Instr.Common().IsInvoke() {
+				off = 1
+			}
+			args := s.Instr.Common().Args
+			if j-off < 0 || j-off >= len(args) {
+				return 0, false
+			}
+			hit := -1
+			for i, par := range f.Params {
+				p := par
+				if derivesFromKey(r, f, args[j-off], func(v ssa.Value) bool { return v == p }, 0) {
+					hit = i
+				}
+			}
+			if hit < 0 || (found && hit != res) {
+				return 0, false
+			}
+			res, found = hit, true
+		}
+	}
+	return res, found
+}
+
+// calleeOrderSensitive: a callee may be invoked per map key only if all it does is store access whose keys
+// are injective in the argument that carries the range key: no events, no bank, no parameters, no iteration,
+// no constant-key (counter/singleton) writes, no key computed from loaded data.
+func calleeOrderSensitive(r *core.Run, c *ssa.Function, call ssa.CallInstruction, isKey func(ssa.Value) bool, caller *ssa.Function) string {
+	effs := r.Eff.Reach(c)
+	written := map[string]bool{}
+	for _, e := range effs {
+		if e.IsWrite() {
+			written[eff.StoreOwner(e)+":"+e.Prefix] = true
+		}
+	}
+	for _, e := range effs {
 		switch {
 		case e.Kind == "event":
 			return "emits an event (events are ordered)"
 		case strings.HasPrefix(e.Kind, "bank."):
 			return "moves coins (" + e.Kind + ")"
-		case e.Kind == "store.set" || e.Kind == "store.delete":
-			if e.Exact {
-				return "writes the constant key " + eff.StoreOwner(e) + ":" + e.Prefix + " (a counter or singleton: the value each iteration sees depends on order)"
-			}
 		case strings.HasPrefix(e.Kind, "param."):
 			return "writes parameters"
+		case strings.HasPrefix(e.Kind, "store."):
+			slot := eff.StoreOwner(e) + ":" + e.Prefix
+			if !written[slot] {
+				continue // reads of records no iteration writes commute
+			}
+			if e.Exact {
+				return "touches the constant key " + slot + " (a counter or singleton: the value each iteration sees depends on order)"
+			}
+			if e.Kind == "store.iter" {
+				return "iterates over " + slot + ", which the loop also writes"
+			}
+			j, ok := effKeyParam(r, c, e, 0)
+			if !ok {
+				return fmt.Sprintf("%s on %s at %s uses a key that is not an injective encoding of one of %s's parameters (e.g. computed from loaded data): two range keys can address the same record, which is then read-modified-written in map order", e.Kind, slot, r.P.Pos(e.Instr.Pos()), r.P.Name(c))
+			}
+			off := 0
+			if call.Common().IsInvoke() {
+				off = 1
+			}
+			args := call.Common().Args
+			if j-off < 0 || j-off >= len(args) || !derivesFromKey(r, caller, args[j-off], isKey, 0) {
+				return fmt.Sprintf("%s on %s is keyed by parameter #%d of %s, but the argument passed for it is not the range key (nor an injective encoding of it)", e.Kind, slot, j, r.P.Name(c))
+			}
 		}
 	}
 	return ""
